@@ -62,6 +62,17 @@ pub struct Session {
     pub hashes: Vec<String>,
     /// C14: payments for these hashes get stuck: (hash hex, "pay" | "waitsendpay")
     pub stuck: Vec<(String, &'static str)>,
+    pub ping_seq: u64,
+}
+
+#[derive(Clone, Copy, Debug, PartialEq)]
+pub enum Wait {
+    Done,
+    /// the plugin answered a later plain forward but not this
+    Hung,
+    /// nothing was answered in time: load, not a verdict
+    TooSlow,
+    Died,
 }
 
 static SESSION_COUNTER: std::sync::atomic::AtomicU64 = std::sync::atomic::AtomicU64::new(0);
@@ -197,6 +208,7 @@ impl Session {
             node_violations: vec![],
             hashes: vec![],
             stuck: vec![],
+            ping_seq: 0,
         };
         let slow = if valgrind.is_some() { 20 } else { 1 };
         s.send_doc(&json!({"jsonrpc": "2.0", "id": "gm", "method": "getmanifest", "params": {"allow-deprecated-apis": false}}), 0);
@@ -459,6 +471,40 @@ impl Session {
         }
     }
 
+    /// Wait for `done`; on timeout find out whether the plugin hangs on this or the machine is
+    /// just slow: a plain forward ("ping") is sent, and only if that is answered while `done`
+    /// still does not hold is the outcome `Hung`. Wall clock alone never yields a verdict.
+    pub fn wait_or_ping(&mut self, done: impl Fn(&Session) -> bool + Copy, timeout: Duration) -> Wait {
+        if self.pump_until(move |s| done(s) || s.out_eof, timeout) && done(self) {
+            return Wait::Done;
+        }
+        if self.out_eof {
+            return if done(self) { Wait::Done } else { Wait::Died };
+        }
+        self.ping_seq += 1;
+        let pid = format!("ping{}", self.ping_seq);
+        self.send_doc(&json!({"jsonrpc": "2.0", "id": pid, "method": "htlc_accepted", "params": forward_request(900_000 + self.ping_seq, "00")}), 0);
+        let pid2 = pid.clone();
+        self.pump_until(move |s| done(s) || s.reply(&pid2).is_some() || s.out_eof, Duration::from_secs(40));
+        if done(self) {
+            return Wait::Done;
+        }
+        if self.out_eof {
+            return Wait::Died;
+        }
+        if self.reply(&pid).is_some() {
+            // responsive: give the awaited thing a last moment
+            self.pump_until(move |s| done(s) || s.out_eof, Duration::from_secs(2));
+            if done(self) {
+                Wait::Done
+            } else {
+                Wait::Hung
+            }
+        } else {
+            Wait::TooSlow
+        }
+    }
+
     pub fn pump_for(&mut self, d: Duration) {
         self.pump_until(|_| false, d);
     }
@@ -651,7 +697,14 @@ pub fn wire_sessions(bin: &str, seed: u64, sessions: u64) -> Result<E2eResult, S
                 }
                 s.send_raw(&bytes, chunking);
                 let idc = ids.clone();
-                let ok = s.pump_until(move |s| idc.iter().all(|id| s.reply(id).is_some()) || s.out_eof, Duration::from_secs(20));
+                let idc_ref = &idc;
+                let wres = s.wait_or_ping(|s| idc_ref.iter().all(|id| s.reply(id).is_some()), Duration::from_secs(20));
+                let ok = wres == Wait::Done;
+                if wres == Wait::TooSlow {
+                    inc_m.lock().unwrap().push("wire session too slow to judge".into());
+                    s.finish();
+                    continue;
+                }
                 s.pump_for(Duration::from_millis(30));
                 *evals_m.lock().unwrap().entry("R17b-e2e".to_string()).or_insert(0) += ids.len() as u64;
                 *evals_m.lock().unwrap().entry("R17c-e2e".to_string()).or_insert(0) += s.docs.len() as u64;
@@ -665,7 +718,7 @@ pub fn wire_sessions(bin: &str, seed: u64, sessions: u64) -> Result<E2eResult, S
                     if s.out_eof {
                         v("R17b|e2e-process-died", format!("plugin exited with calls {missing:?} unanswered (chunking {chunking})"));
                     } else {
-                        v("R17b|e2e-missing-reply", format!("no reply for {missing:?} within 20 s (chunking {chunking}, {n} messages)"));
+                        v("R17b|e2e-missing-reply", format!("no reply for {missing:?} although a later plain forward was answered (chunking {chunking}, {n} messages)"));
                     }
                 }
                 for id in &ids {
